@@ -35,7 +35,12 @@ def gen(tier, rng, cov):
         n = {"quick": 16, "thorough": 300}[tier]
         for proto in ("netrpc", "grpc"):
             for w in rng.sample(good, min(n, len(good))):
-                cases.append({"name": "ra%d" % len(cases), "test_mode": tm, "proto": proto, "ops": [parse_label(x) for x in w]})
+                ops = [parse_label(x) for x in w]
+                for o in ops:
+                    if o["op"] == "Reattach":
+                        # the configuration may come from the original or from a client that is itself reattached
+                        o["src"] = rng.choice(["orig", "c2", "c3"])
+                cases.append({"name": "ra%d" % len(cases), "test_mode": tm, "proto": proto, "ops": ops})
     return cases, runs
 
 
